@@ -8,9 +8,12 @@ from any state satisfying the invariant `Inv` (in particular every `reset` state
 a no-op (`failed_op_noop`), as the message server's cache context makes it.
 
 PARTIAL by construction.  Outside the model, hence outside these theorems:
-* the staking module below the ledger abstraction `deleg (denom, validator) : Option Int` — validator shares at
-  an exchange rate ≠ 1, slashing (`SlashLockupsForValidatorSlash`, the refresh in `AfterValidatorSlashed`),
-  jailed / unbonding / removed validators, the int64 consensus-power bound of a validator;
+* (first part, over the ledger abstraction `deleg (denom, validator) : Option Int`) validator shares at an exchange
+  rate ≠ 1, slashing, the int64 consensus-power bound of a validator — these ARE in the second part, over
+  Model/SuperfluidStaking.lean: share arithmetic, slashes, the 100 % slash taken together with the top-ups of the locks
+  it empties (`OpS.slashRefill`), `Delegate` refusing a validator without tokens, the power index refusing 2⁶³ power
+  units, and what the error-swallowing callers leave behind (last section: `failed_mint_leaves_no_trace` …);
+  jailed / unbonding / removed validators stay outside;
 * staking rewards, their move to the intermediary accounts' gauges and the gauge distribution
   (`MoveSuperfluidDelegationRewardToGauges`, `distributeSuperfluidGauges`);
 * governance removal of a superfluid asset, `UnbondConvertAndStake`, unpool / migration entry points,
@@ -499,6 +502,7 @@ theorem reported_supply_step {s s' : SState} {op : OpS} (h : Inv s.b) (hc : appl
   intro hs
   cases op with
   | slash _ _ _ _ => cases hs
+  | slashRefill _ _ _ _ _ => cases hs
   | base _ => rfl
   | epochO _ _ => rfl
 
@@ -684,18 +688,19 @@ theorem no_withdraw_before_undelegation_matured_slashed {s₀ : SState} (h : Inv
 force-undelegated at an earlier epoch) and expected amount `e > 0` is topped up by the refresh: `e` is minted and
 offset, and the delegation is re-created with `⌊S·e/T⌋` shares of a validator with `T` tokens and `S` shares, whose
 exact token worth is at most `e` and misses `e` by less than `T'/S'` < one unit (`…·S' < …·S' + T`, cross-multiplied);
-no other delegation record changes. -/
+no other delegation record changes.  (`hpow`: the validator stays below `2⁶³` power units, else staking's power index
+panics and the mint is rolled back: `failed_mint_leaves_no_trace_refresh`.) -/
 theorem refresh_recreates_missing_delegation {s s' : SState} {key : AccKey} {e : Int} {v' : Val} {issued : Int}
     (hv : key.2 ∈ s.b.validators) (hn : s.k.dsh key = none) (he : expectedDelegation s.b key = .ok e) (hpos : 0 < e)
     (hT : 0 < (s.k.val key.2).tokens) (hS : 0 < (s.k.val key.2).shares)
     (hadd : (s.k.val key.2).addTokensFromDel e = some (v', issued)) (hrange : chkDec issued = some issued)
-    (hc : refreshOneS s key = .ok s') :
+    (hpow : powerOverflows v'.tokens = false) (hc : refreshOneS s key = .ok s') :
     s'.k.dsh key = some issued ∧ s'.b.supply = s.b.supply + e ∧ s'.b.offset = s.b.offset - e ∧
     (s'.k.val key.2).tokens = (s.k.val key.2).tokens + e ∧ (s'.k.val key.2).shares = (s.k.val key.2).shares + issued ∧
     issued * (s'.k.val key.2).tokens ≤ e * (s'.k.val key.2).shares ∧
     e * (s'.k.val key.2).shares < issued * (s'.k.val key.2).tokens + (s.k.val key.2).tokens ∧
     (∀ k', k' ≠ key → s'.k.dsh k' = s.k.dsh k') := by
-  obtain ⟨h1, h2, h3, h4, h5⟩ := refreshOneS_missing hv hn he hpos hT hadd hrange hc
+  obtain ⟨h1, h2, h3, h4, h5⟩ := refreshOneS_missing hv hn he hpos hT hadd hrange hpow hc
   obtain ⟨a1, a2, a3⟩ := addTokensFromDel_ok hT hS hadd
   obtain ⟨b1, b2, _⟩ := sharesFromTokens_floor hT (Int.le_of_lt hS) (Int.le_of_lt hpos) a1
   obtain ⟨c1, c2⟩ := recreated_stake_bounds hT hS (Int.le_of_lt hpos) b1 b2
@@ -707,11 +712,11 @@ theorem refresh_recreates_missing_delegation_rate_one {s s' : SState} {key : Acc
     (hv : key.2 ∈ s.b.validators) (hn : s.k.dsh key = none) (he : expectedDelegation s.b key = .ok e) (hpos : 0 < e)
     (hT : 0 < (s.k.val key.2).tokens) (hrate : (s.k.val key.2).shares = (s.k.val key.2).tokens * P18)
     (hadd : (s.k.val key.2).addTokensFromDel e = some (v', issued)) (hrange : chkDec issued = some issued)
-    (hc : refreshOneS s key = .ok s') :
+    (hpow : powerOverflows v'.tokens = false) (hc : refreshOneS s key = .ok s') :
     s'.k.dsh key = some (e * P18) ∧ (s'.k.val key.2).shares = (s'.k.val key.2).tokens * P18 := by
   have hS : 0 < (s.k.val key.2).shares := by
     rw [hrate]; exact Int.mul_pos hT (by decide)
-  obtain ⟨h1, h2, _, _, _⟩ := refreshOneS_missing hv hn he hpos hT hadd hrange hc
+  obtain ⟨h1, h2, _, _, _⟩ := refreshOneS_missing hv hn he hpos hT hadd hrange hpow hc
   obtain ⟨a1, a2, a3⟩ := addTokensFromDel_ok hT hS hadd
   obtain ⟨b1, b2, _⟩ := sharesFromTokens_floor hT (Int.le_of_lt hS) (Int.le_of_lt hpos) a1
   rw [hrate] at b1 b2
@@ -825,6 +830,244 @@ theorem stake_after_slash_witness :
     (runS wS0 slash2Ops).b.supply = 2000000 + 1250 - 333333 ∧ (runS wS0 slash2Ops).b.offset = -1250 ∧
     stake00 (runS wS0 (slash2Ops ++ [.epochO [(0, 250, 100 * P18, false)] [(0, 0)]])) = some 834 ∧
     (runS wS0 (slash2Ops ++ [.epochO [(0, 250, 100 * P18, false)] [(0, 0)]])).b.offset = -1251 := by
+  decide +kernel
+
+/-! ## failing inner steps of the all-or-nothing branches (fault histories of the engine)
+
+`mintOsmoTokensAndDelegate` and `forceUndelegateAndBurnOsmoTokens` run their writes inside `ApplyFuncIfNoError`; the
+lockup hook `AfterAddTokensToLock` and the epoch's `RefreshIntermediaryDelegationAmounts` log a failure and go on.  In
+the model a failed branch is an `Except.error` that carries no state, and the callers continue from the state they had:
+the theorems below say what that means for every state — a failed branch leaves NO trace in the bank supply, the supply
+offset, the validators, the delegation records, the markers or the connections — and name the two inner steps that
+fail on the real chain after the superfluid code has validated its inputs. -/
+
+/-- **inner-step fault 1** — a validator without tokens but with outstanding shares (what a 100 % slash leaves): staking's
+`Delegate` refuses (`ErrDelegatorShareExRateInvalid`), whatever the amount. -/
+theorem mint_refused_without_tokens (s : SState) (a : Int) (key : AccKey)
+    (h0 : (s.k.val key.2).tokens = 0) (hS : 0 < (s.k.val key.2).shares) : ∃ e, mintS s a key = .error e := by
+  unfold mintS
+  split
+  · exact ⟨_, rfl⟩
+  · split
+    · exact ⟨_, rfl⟩
+    · dsimp only
+      rw [if_pos ⟨h0, hS⟩]
+      exact ⟨_, rfl⟩
+
+/-- **inner-step fault 2** — the LAST step of the branch: the validator's new tokens reach `2⁶³` power units, staking's
+`SetValidatorByPowerIndex` panics, `ApplyFuncIfNoError` recovers — after the coins were minted, offset and sent. -/
+theorem mint_refused_at_power_limit (s : SState) (a : Int) (key : AccKey) {v' : Val} {issued : Int}
+    (hadd : (s.k.val key.2).addTokensFromDel a = some (v', issued)) (hp : powLimit ≤ v'.tokens) :
+    ∃ e, mintS s a key = .error e := by
+  unfold mintS
+  split
+  · exact ⟨_, rfl⟩
+  · split
+    · exact ⟨_, rfl⟩
+    · dsimp only
+      split
+      · exact ⟨_, rfl⟩
+      · rw [hadd]
+        dsimp only
+        rw [if_pos ((powerOverflows_iff _).2 hp)]
+        exact ⟨_, rfl⟩
+
+/-- the burn branch on a validator without tokens: `ValidateUnbondAmount` refuses (`ErrInsufficientShares`), or there is
+no delegation record and nothing happens. -/
+theorem burn_refused_without_tokens {s s' : SState} {a : Int} {key : AccKey} (h0 : (s.k.val key.2).tokens = 0)
+    (hc : burnS s a key = .ok s') : s' = s := by
+  unfold burnS at hc
+  split at hc
+  · cases hc
+  · split at hc
+    · injection hc with hc; exact hc.symm
+    · split at hc
+      · cases hc
+      · dsimp only at hc
+        unfold validateUnbondAmount at hc
+        rw [if_pos h0] at hc
+        cases hc
+
+/-- **`failed_mint_leaves_no_trace`** (top-up hook): when the mint the hook asks for fails, `IncreaseSuperfluidDelegation`
+returns the state it was called in — the complete state: supply, offset, validators, delegation records, locks,
+markers, connections. -/
+theorem failed_mint_leaves_no_trace {s s' : SState} {id d : Nat} {a : Int}
+    (hfail : ∀ key amt, s.b.conns id = some key → osmoTokens s.b key.1 (if key.1 = d then a else 0) = .ok amt →
+      ∃ e, mintS s amt key = .error e)
+    (hc : increaseHookS s id d a = .ok s') : s' = s := by
+  unfold increaseHookS at hc
+  split at hc
+  · injection hc with hc; exact hc.symm
+  · rename_i key hk
+    split at hc
+    · injection hc with hc; exact hc.symm
+    · split at hc
+      · cases hc
+      · injection hc with hc; exact hc.symm
+      · rename_i amt hos
+        split at hc
+        · injection hc with hc; exact hc.symm
+        · obtain ⟨e, he⟩ := hfail key amt hk hos
+          rw [he] at hc
+          cases e <;> first | (cases hc; done) | (injection hc with hc; exact hc.symm)
+
+/-- … and the hook never fails because of a failed mint: the top-up goes through. -/
+theorem failed_mint_is_swallowed {s : SState} {id d : Nat} {a : Int} {key : AccKey} {amt : Int} {e : Err}
+    (hk : s.b.conns id = some key) (hacc : (findAcc s.b.accs key).isSome = true)
+    (hos : osmoTokens s.b key.1 (if key.1 = d then a else 0) = .ok amt) (hm : mintS s amt key = .error e) :
+    increaseHookS s id d a = .ok s := by
+  unfold increaseHookS
+  rw [hk]
+  dsimp only
+  cases hf : findAcc s.b.accs key with
+  | none => rw [hf] at hacc
+  | some g =>
+    dsimp only
+    rw [hos]
+    dsimp only
+    split
+    · rfl
+    · rw [hm]
+      have hnp : e ≠ .panic := fun h => mintS_no_panic (h ▸ hm)
+      cases e <;> first | rfl | exact absurd rfl hnp
+
+/-- **the whole top-up of a delegated lock whose validator has no tokens**: `AddTokensToLockByID` succeeds, the lock and
+its marker's accumulation store grow, and nothing else moves — bank supply, supply offset, every validator, every
+delegation record, every marker and every connection are as before. -/
+theorem topup_without_tokens_leaves_no_trace {s s' : SState} {snd id : Nat} {a : Int} {key : AccKey}
+    (hk : s.b.conns id = some key) (h0 : (s.k.val key.2).tokens = 0) (hS : 0 < (s.k.val key.2).shares)
+    (hc : addTokensToLockS s snd id a = .ok s') :
+    s'.k = s.k ∧ s'.b.supply = s.b.supply ∧ s'.b.offset = s.b.offset ∧ s'.b.synths = s.b.synths ∧ s'.b.conns = s.b.conns ∧
+    ∃ l, s.b.locks id = some l ∧ s'.b.locks id = some { l with amount := l.amount + a } := by
+  obtain ⟨l, hl, _, _, hsy, hh⟩ := addTokensToLockS_ok hc
+  have hconn : (addedState s.b id l a).conns = s.b.conns := by unfold addedState; split <;> rfl
+  have e : s' = { s with b := addedState s.b id l a } := by
+    refine failed_mint_leaves_no_trace ?_ hh
+    intro key' amt hk' _
+    have : key' = key := by
+      have : (addedState s.b id l a).conns id = some key' := hk'
+      rw [hconn, hk] at this; injection this with this; exact this.symm
+    subst this
+    exact mint_refused_without_tokens _ amt key' h0 hS
+  subst e
+  refine ⟨rfl, ?_, ?_, ?_, hconn, l, hl, ?_⟩
+  · unfold addedState; split <;> rfl
+  · unfold addedState; split <;> rfl
+  · unfold addedState; split <;> rfl
+  · show (addedState s.b id l a).locks id = _
+    unfold addedState; split <;> simp [upd]
+
+/-- **`failed_refresh_branch_leaves_no_trace`** (epoch refresh, one account): when the branch the refresh takes — mint
+if the expected amount exceeds the current one, force-undelegate-and-burn if it is below — fails, the iteration leaves the
+complete state as it was (the loop goes on with the next account). -/
+theorem failed_refresh_branch_leaves_no_trace {s s' : SState} {key : AccKey}
+    (hfail : ∀ cur e, currentS s key = some cur → expectedDelegation s.b key = .ok e →
+      (cur < e → ∃ err, mintS s (e - cur) key = .error err) ∧ (e < cur → ∃ err, burnS s (cur - e) key = .error err))
+    (hc : refreshOneS s key = .ok s') : s' = s := by
+  unfold refreshOneS at hc
+  split at hc
+  · injection hc with hc; exact hc.symm
+  · split at hc
+    · cases hc
+    · rename_i cur hcur
+      split at hc
+      · cases hc
+      · rename_i e he
+        obtain ⟨f1, f2⟩ := hfail cur e hcur he
+        split at hc
+        · rename_i hlt
+          obtain ⟨err, herr⟩ := f1 (by omega)
+          rw [herr] at hc
+          cases err <;> first | (cases hc; done) | (injection hc with hc; exact hc.symm)
+        · split at hc
+          · rename_i hgt
+            obtain ⟨err, herr⟩ := f2 (by omega)
+            rw [herr] at hc
+            cases err <;> first | (cases hc; done) | (injection hc with hc; exact hc.symm)
+          · injection hc with hc; exact hc.symm
+
+/-- **the refresh of an account whose validator has no tokens** changes nothing, whatever the expected amount: the mint
+is refused by `Delegate`, the burn by `ValidateUnbondAmount`. -/
+theorem refresh_without_tokens_leaves_no_trace {s s' : SState} {key : AccKey}
+    (h0 : (s.k.val key.2).tokens = 0) (hS : 0 < (s.k.val key.2).shares) (hc : refreshOneS s key = .ok s') : s' = s := by
+  unfold refreshOneS at hc
+  split at hc
+  · injection hc with hc; exact hc.symm
+  · split at hc
+    · cases hc
+    · split at hc
+      · cases hc
+      · rename_i cur _ _ e _
+        split at hc
+        · obtain ⟨err, herr⟩ := mint_refused_without_tokens s (e - cur) key h0 hS
+          rw [herr] at hc
+          cases err <;> first | (cases hc; done) | (injection hc with hc; exact hc.symm)
+        · split at hc
+          · split at hc
+            · cases hc
+            · injection hc with hc; exact hc.symm
+            · rename_i s2 hb
+              injection hc with hc
+              rw [← hc]; exact burn_refused_without_tokens h0 hb
+          · injection hc with hc; exact hc.symm
+
+/-- **the reported supply along histories with failed branches**: `reported_supply_invariant` quantifies over ALL
+histories of `OpS` from ALL states satisfying the lockup invariant — validators without tokens, validators at the power
+limit, 100 % slashes with top-ups (`OpS.slashRefill`), top-ups and refreshes whose mint fails included.  Restated for
+the histories of the fault classes: supply + offset falls by exactly what the slashes burn and by nothing else. -/
+theorem reported_supply_invariant_with_failed_branches {s₀ : SState} (h : Inv s₀.b) (ops : List OpS) :
+    tot (runS s₀ ops).b = tot s₀.b - burntAlong s₀ ops := (reported_supply_invariant h ops).1
+
+/-! ### non-vacuity: the fault histories on the witness state -/
+
+/-- a one-share lock is delegated (stake 1, minted and offset), the validator is slashed by everything it has — the lock
+is emptied and, in the same composite step, topped up with 4 shares by its owner (the hook's mint is refused) —, the
+lock is topped up again, and an epoch at the old price wants to mint the missing stake. -/
+def zeroOps : List OpS :=
+  [.base (.lock 0 0 1 100 true), .base (.delegate 0 1 0), .slashRefill 0 2000000 P18 [] [(1, 4)],
+   .base (.addToLock 0 1 8), .epochO [(0, 250, 100 * P18, false)] [(0, 0)]]
+
+/-- the state after the 100 % slash: validator 0 has no tokens but all its shares, lock 1 holds the 4 topped-up shares
+and is still delegated with its marker; the three mints that follow (hook of the composite's top-up, hook of the second
+top-up, refresh) are all refused, and supply, offset and the delegation record stay exactly where the slash left them;
+reported supply = initial − burnt. -/
+theorem failed_mint_history_example :
+    ((runS wS0 (zeroOps.take 3)).k.val 0).tokens = 0 ∧ ((runS wS0 (zeroOps.take 3)).k.val 0).shares = 1000001 * P18 ∧
+    ((runS wS0 (zeroOps.take 3)).b.locks 1).map (·.amount) = some 4 ∧ (runS wS0 (zeroOps.take 3)).b.conns 1 = some (0, 0) ∧
+    (runS wS0 (zeroOps.take 3)).b.supply = 2000001 - 1000001 ∧ (runS wS0 (zeroOps.take 3)).b.offset = -1 ∧
+    errOf (mintS (runS wS0 (zeroOps.take 3)) 10 (0, 0)) = some .other ∧
+    errOf (applyOpS (runS wS0 (zeroOps.take 3)) (.base (.addToLock 0 1 8))) = none ∧
+    ((runS wS0 (zeroOps.take 4)).b.locks 1).map (·.amount) = some 12 ∧
+    (expectedDelegation (runS wS0 (zeroOps.take 4)).b (0, 0)).toOption = some 15 ∧
+    errOf (applyOpS (runS wS0 (zeroOps.take 4)) (zeroOps.getD 4 (.base .endBlock))) = none ∧
+    (runS wS0 zeroOps).b.supply = 1000000 ∧ (runS wS0 zeroOps).b.offset = -1 ∧
+    shares00 (runS wS0 zeroOps) = some P18 ∧ ((runS wS0 zeroOps).k.val 0).tokens = 0 ∧
+    tot (runS wS0 zeroOps).b = tot wS0.b - 1000001 ∧ burntAlong wS0 zeroOps = 1000001 := by
+  decide +kernel
+
+/-- the hypotheses of `topup_without_tokens_leaves_no_trace` / `refresh_without_tokens_leaves_no_trace` are met there. -/
+example : (runS wS0 (zeroOps.take 3)).b.conns 1 = some (0, 0) ∧ ((runS wS0 (zeroOps.take 3)).k.val (0, 0).2).tokens = 0 ∧
+    0 < ((runS wS0 (zeroOps.take 3)).k.val (0, 0).2).shares ∧ Inv (runS wS0 (zeroOps.take 3)).b :=
+  ⟨by decide +kernel, by decide +kernel, by decide +kernel, reach_inv_slashed ((init_inv w0_init).ledger_frame _ _ _) _⟩
+
+/-- the power limit: a delegated one-share lock is topped up with 8·10²⁴ shares worth 10²⁵ uosmo; minting them would take
+the validator to more than 2⁶³ power units — the hook's mint is refused at the last step of the branch, the top-up
+stands, supply and offset stay; the refresh of the next epoch is refused in the same way. -/
+def overflowOps : List OpS :=
+  [.base (.lock 0 0 1 100 true), .base (.delegate 0 1 0), .base (.addToLock 0 1 8000000000000000000000000),
+   .epochO [(0, 250, 100 * P18, false)] [(0, 0)]]
+
+theorem power_overflow_history_example :
+    (runS wS0 (overflowOps.take 2)).b.supply = 2000001 ∧ (runS wS0 (overflowOps.take 2)).b.offset = -1 ∧
+    errOf (mintS (runS wS0 (overflowOps.take 2)) 10000000000000000000000000 (0, 0)) = some .other ∧
+    errOf (mintS (runS wS0 (overflowOps.take 2)) (powLimit - 1000001 - 1) (0, 0)) = none ∧
+    errOf (mintS (runS wS0 (overflowOps.take 2)) (powLimit - 1000001) (0, 0)) = some .other ∧
+    errOf (applyOpS (runS wS0 (overflowOps.take 2)) (overflowOps.getD 2 (.base .endBlock))) = none ∧
+    ((runS wS0 (overflowOps.take 3)).b.locks 1).map (·.amount) = some 8000000000000000000000001 ∧
+    (expectedDelegation (runS wS0 (overflowOps.take 3)).b (0, 0)).toOption = some 10000000000000000000000001 ∧
+    (runS wS0 overflowOps).b.supply = 2000001 ∧ (runS wS0 overflowOps).b.offset = -1 ∧
+    shares00 (runS wS0 overflowOps) = some P18 ∧ ((runS wS0 overflowOps).k.val 0).tokens = 1000001 ∧
+    tot (runS wS0 overflowOps).b = tot wS0.b := by
   decide +kernel
 
 end OsmoVerif.Props.C11
